@@ -5,7 +5,7 @@ Real code driven: MQ.frames2topicmsgs / MQ.topicmsgs2frames (openfilter/filter_r
 Enumerated completely (nothing sampled):
 
   frame kind  = {no image} + {GRAY, BGR, RGB} x SIZES x LAYOUTS
-  data        = DATA (5 values: {}, flat, nested+unicode+None+list, 2**70, floats)
+  data        = DATA (6 values: {}, flat, nested+unicode+None+list, 2**70, floats, unpaired surrogates + control characters)
   outs_jpg    = {None, True, False}
   transport   = {direct, wire}   direct: the dict returned by frames2topicmsgs is handed to topicmsgs2frames as it is
                                  wire:   what ZMQSender/ZMQReceiver do to a message in between - msg[0] through
@@ -48,6 +48,9 @@ DATA = [
      'list': [1, 'två', None, [2.5, {}], {'k': []}], 'ключ': 'знач'},
     {'big': 2 ** 70, 'neg': -2 ** 70, 'zero': 0},
     {'f': 0.1, 'tiny': 5e-324, 'huge': 1.7976931348623157e308, 'neg': -1234.5678e-9, 'negzero': -0.0, 'whole': 3.0},
+    # strings JSON can carry but UTF-8 cannot: an unpaired surrogate (json.loads('"\\ud83d"'), a surrogateescape file name), control
+    # characters, a key with a quote and a backslash
+    {'lone': 'x\ud83dy', 'name': 'clip-\udcff.mp4', 'ctl': 'a\x00b\x1f\x7f\u2028', 'q"\\k': '"\\'},
 ]
 
 NOIMG = None  # the kind "no image"
